@@ -433,6 +433,16 @@ func (f *kindFlow) Instr(in ssa.Instruction, s *kindState) *kindState {
 			recv := x.Call.Args[0]
 			w := f.wrapOf(recv, s, 0)
 			if meth == "Elem" && w == wYes {
+				if why := f.sharedWithPointerStep(x); why != "" {
+					f.report(x, recv, why)
+				}
+				// a pointer test made while the value was still wrapped (so: decided by the wrapper) and not repeated after the
+				// unwrapping: a bare pointer is dereferenced, the same pointer inside an interface is not
+				for v, test := range s.decided {
+					if (v == recv || sameCellLoad(v, recv)) && strings.Contains(test, "Ptr") && !f.ptrTestAfter(x) {
+						f.report(x, recv, "the value is examined for being a pointer (`"+test+"`) before it is taken out of its interface and not again afterwards: a pointer read from a container is not dereferenced where the same pointer in a variable is")
+					}
+				}
 				delete(s.decided, recv) // unwrapping forgives earlier tests on this value
 				for v := range s.decided {
 					if sameCellLoad(v, recv) {
@@ -970,4 +980,147 @@ func isElemTypeOfValue(t ssa.Value) bool {
 	}
 	tc, ok := c.Call.Value.(*ssa.Call)
 	return ok && reflectMethod(tc) == "Type"
+}
+
+// sharedWithPointerStep: the Elem() that takes a wrapped value out of its interface is the same step that dereferences a bare
+// pointer (`if k == Ptr || k == Interface { v = v.Elem() }`), and what it yields is not tested for being a pointer again. A
+// pointer that arrives inside an interface is then only unwrapped where the same pointer arriving bare is dereferenced: the
+// two are treated differently.
+func (f *kindFlow) sharedWithPointerStep(el *ssa.Call) string {
+	recv := el.Call.Args[0]
+	same := func(v ssa.Value) bool { return v == recv || sameCellLoad(v, recv) }
+	shared := false
+	for _, b := range f.fn.Blocks {
+		iff, ok := b.Instrs[len(b.Instrs)-1].(*ssa.If)
+		if !ok {
+			continue
+		}
+		bo, ok := iff.Cond.(*ssa.BinOp)
+		if !ok || (bo.Op != token.EQL && bo.Op != token.NEQ) {
+			continue
+		}
+		kc, ok := bo.X.(*ssa.Call)
+		k, ok2 := bo.Y.(*ssa.Const)
+		if !ok || !ok2 || reflectMethod(kc) != "Kind" || k.Value == nil || k.Int64() != 22 || !same(kc.Call.Args[0]) {
+			continue
+		}
+		succ := b.Succs[0]
+		if bo.Op == token.NEQ {
+			succ = b.Succs[1]
+		}
+		// the pointer edge reaches this Elem without another test in between (directly, or through the `||` join)
+		if succ == el.Block() || (len(succ.Instrs) == 1 && len(succ.Succs) == 1 && succ.Succs[0] == el.Block()) {
+			shared = true
+		}
+	}
+	if !shared {
+		return ""
+	}
+	// is the result examined for being a pointer afterwards?
+	derived := map[ssa.Value]bool{el: true}
+	for changed := true; changed; {
+		changed = false
+		for _, b := range f.fn.Blocks {
+			for _, in := range b.Instrs {
+				if ph, ok := in.(*ssa.Phi); ok && !derived[ph] {
+					for _, e := range ph.Edges {
+						if derived[e] {
+							derived[ph] = true
+							changed = true
+						}
+					}
+				}
+			}
+		}
+	}
+	for _, b := range f.fn.Blocks {
+		for _, in := range b.Instrs {
+			bo, ok := in.(*ssa.BinOp)
+			if !ok || (bo.Op != token.EQL && bo.Op != token.NEQ) {
+				continue
+			}
+			kc, ok := bo.X.(*ssa.Call)
+			k, ok2 := bo.Y.(*ssa.Const)
+			if ok && ok2 && reflectMethod(kc) == "Kind" && k.Value != nil && k.Int64() == 22 && derived[kc.Call.Args[0]] && kc != nil {
+				if el.Block() == kc.Block() && instrIndex(el) < instrIndex(kc) || el.Block() != kc.Block() && reachable(el.Block(), nil)[kc.Block()] {
+					// only a test that comes after the step counts (in a loop the same test may precede it)
+					if !(kc.Block().Dominates(el.Block()) && kc.Block() != el.Block()) {
+						return ""
+					}
+				}
+			}
+		}
+	}
+	return "one Elem() both takes the value out of its interface and dereferences a bare pointer, and the result is not examined for being a pointer: a pointer read from a container is only unwrapped where the same pointer in a variable is dereferenced"
+}
+
+// ptrTestAfter: after the Elem() call el, its result (or the cell it is stored back to) is examined for being a pointer.
+func (f *kindFlow) ptrTestAfter(el *ssa.Call) bool {
+	derived := map[ssa.Value]bool{el: true}
+	var cellStores []*ssa.Store
+	for changed := true; changed; {
+		changed = false
+		for _, b := range f.fn.Blocks {
+			for _, in := range b.Instrs {
+				switch x := in.(type) {
+				case *ssa.Phi:
+					if !derived[x] {
+						for _, e := range x.Edges {
+							if derived[e] {
+								derived[x] = true
+								changed = true
+							}
+						}
+					}
+				case *ssa.Store:
+					if derived[x.Val] {
+						seen := false
+						for _, cs := range cellStores {
+							if cs == x {
+								seen = true
+							}
+						}
+						if !seen {
+							cellStores = append(cellStores, x)
+							changed = true
+						}
+					}
+				case *ssa.UnOp:
+					if x.Op == token.MUL && !derived[x] {
+						for _, cs := range cellStores {
+							if cs.Addr == x.X || sameAddr(cs.Addr, x.X) {
+								derived[x] = true
+								changed = true
+							}
+						}
+					}
+				}
+			}
+		}
+	}
+	after := reachable(el.Block(), nil)
+	for _, b := range f.fn.Blocks {
+		for _, in := range b.Instrs {
+			bo, ok := in.(*ssa.BinOp)
+			if !ok || (bo.Op != token.EQL && bo.Op != token.NEQ) {
+				continue
+			}
+			kc, ok := bo.X.(*ssa.Call)
+			k, ok2 := bo.Y.(*ssa.Const)
+			if !ok || !ok2 || reflectMethod(kc) != "Kind" || k.Value == nil || k.Int64() != 22 || !derived[kc.Call.Args[0]] {
+				continue
+			}
+			if kc.Block() == el.Block() && instrIndex(kc) > instrIndex(el) || kc.Block() != el.Block() && after[kc.Block()] {
+				return true
+			}
+		}
+	}
+	return false
+}
+
+// sameAddr: two FieldAddr of the same field of the same base.
+func sameAddr(a, b ssa.Value) bool {
+	fa, ok1 := a.(*ssa.FieldAddr)
+	fb, ok2 := b.(*ssa.FieldAddr)
+	return ok1 && ok2 && fa.Field == fb.Field && (fa.X == fb.X || sameBase(fa.X, fb.X))
 }
